@@ -38,6 +38,6 @@ R=${SEED_REPO:-/repo}
 if [ -n "$(git -C $R status --porcelain)" ]; then echo "SEED $ID: $R is not clean, refusing"; exit 7; fi
 git -C $R apply "$SD/patch.diff"
 OUT=$(VERIF_REPO=$R VERIF_NO_EVIDENCE=1 ./check $ID $TIER 2>&1); RC=$?
-git -C $R checkout -- .
+git -C $R apply -R "$SD/patch.diff" 2>/dev/null || git -C $R checkout -- .
 if [ $RC -eq 1 ]; then echo "SEED $ID: CAUGHT by ./check $ID $TIER: $(echo "$OUT" | grep -A2 '^----' | grep -v '^--' | head -2 | cut -c1-400 | tr '\n' ' ')";
 elif [ $RC -eq 0 ]; then echo "SEED $ID: MISSED by ./check $ID $TIER"; else echo "SEED $ID: INCONCLUSIVE rc=$RC $(echo "$OUT" | tail -3 | cut -c1-300)"; fi
